@@ -5,6 +5,8 @@ run-time part is the executable runtime model tied by level B).
 -/
 import GontainerModel.Lemmas.C02Aux
 import GontainerModel.Model.Runtime
+import GontainerModel.Model.Emit
+import GontainerModel.Generated.Template
 import GontainerModel.Generated.Wiring
 namespace GM.C02
 open GM GM.Compile
@@ -88,6 +90,77 @@ theorem service_parts (name : String) (svc : Input.Service) (dm : Option Bool) (
     (compileService name svc dm fns st).1.tags.map (fun t => (t.name, t.priority)) = svc.tags.map (fun t => (t.name, t.priority)) := by
   unfold compileService
   simp [h]
+
+/-! ### what the constructor template emits -/
+
+/-- **creation, then fields, then calls, then tags and scope, then registration** — the statement sequence the
+template emits for a live service, in this order and with the compiled texts in their compiled order -/
+theorem emit_block_shape (s : Output.Service) (h : s.todo = false) :
+    Emit.serviceBlock s =
+      Emit.creation s ++
+      s.fields.map (fun f => ⟨"s.SetField", [Emit.q f.name, f.value.code]⟩) ++
+      s.calls.map (fun c => ⟨if c.immutable then "s.AppendWither" else "s.AppendCall", Emit.q c.method :: c.args.map (·.code)⟩) ++
+      s.tags.map (fun t => ⟨"s.Tag", [Emit.q t.name, "int(" ++ toString t.priority ++ ")"]⟩) ++
+      [⟨Emit.scopeSetter s.scope, []⟩] ++ [⟨"c.OverrideService", [Emit.q s.name, "s"]⟩] := by
+  unfold Emit.serviceBlock
+  simp [h]
+
+/-- **every service is registered under its own name** — live or todo (a todo service is registered with the
+`service todo` error constructor and nothing else) -/
+theorem every_service_registered (o : Output.Output) (s : Output.Service) (hs : s ∈ o.services) :
+    (⟨"c.OverrideService", [Emit.q s.name, "s"]⟩ : Emit.Stmt) ∈ Emit.constructorBody o ∧
+    (s.todo = true → Emit.serviceBlock s = [Emit.todoCreation, ⟨"c.OverrideService", [Emit.q s.name, "s"]⟩]) := by
+  constructor
+  · unfold Emit.constructorBody
+    simp only [List.mem_append, List.mem_flatMap]
+    left; right
+    exact ⟨s, hs, by unfold Emit.serviceBlock; simp⟩
+  · intro ht
+    unfold Emit.serviceBlock
+    simp [ht]
+
+/-- **a `value:` service is created by a closure that evaluates the expression at every construction**: the
+template never registers a pre-built instance (`SetValue`) -/
+theorem value_is_evaluated_per_construction (o : Output.Output) :
+    (∀ st ∈ Emit.constructorBody o, st.fn ≠ "s.SetValue") ∧
+    (∀ s : Output.Service, s.constructor = "" → s.value ≠ "" →
+      Emit.creation s = [⟨"s.SetConstructor", ["func() " ++ (if s.type != "" then s.type else "interface{}") ++ " { return " ++ s.value ++ " }"]⟩]) := by
+  constructor
+  · intro st hst
+    unfold Emit.constructorBody at hst
+    simp only [List.mem_append, List.mem_map, List.mem_flatMap] at hst
+    rcases hst with (⟨p, _, rfl⟩ | ⟨s, _, hs⟩) | ⟨d, _, rfl⟩
+    · simp
+    · unfold Emit.serviceBlock at hs
+      simp only [List.mem_append, List.mem_cons, List.not_mem_nil, or_false] at hs
+      rcases hs with hs | rfl
+      · split at hs
+        · simp only [List.mem_cons, List.not_mem_nil, or_false] at hs
+          subst hs; simp [Emit.todoCreation]
+        · simp only [List.mem_append, List.mem_map, List.mem_cons, List.not_mem_nil, or_false] at hs
+          rcases hs with (((hc | ⟨f, _, rfl⟩) | ⟨c, _, rfl⟩) | ⟨t, _, rfl⟩) | rfl
+          · unfold Emit.creation at hc
+            split at hc
+            · simp at hc; subst hc; simp
+            · split at hc
+              · simp at hc; subst hc; simp
+              · split at hc
+                · simp at hc; subst hc; simp
+                · simp at hc
+          · simp
+          · split <;> simp
+          · simp
+          · cases s.scope <;> simp [Emit.scopeSetter]
+      · simp
+    · simp
+  · intro s hc hv
+    unfold Emit.creation
+    simp [hc, hv]
+
+/-- the scope setters of the model are the ones of the template's branches (regenerated) -/
+theorem pin_scope_setters :
+    Generated.tplScopeSetters.map (fun p => "s." ++ p.2) =
+      [Emit.scopeSetter .default, Emit.scopeSetter .shared, Emit.scopeSetter .contextual, Emit.scopeSetter .nonShared] := by decide
 
 /-- scope keyword ↦ compiled scope is the identity on {shared, contextual, non_shared}; unset ↦ default -/
 theorem scope_mapping :
